@@ -65,6 +65,10 @@ theorem adopted_proposal_is_validated_or_certified (n : Node) (e : Event) (spi :
     · cases hs
     · rename_i hval
       rw [if_neg hval]
+      split at hs
+      · cases hs
+      rename_i hlock
+      rw [if_neg hlock]
       dsimp only at hs ⊢
       have hap := askValidate_appends' benignOnly_benign ({ n := n, spi := spi } : Term.W) m.c.header.height m.c.header.view m.block m.c.header.hash
       have htrue := askValidate_true ({ n := n, spi := spi } : Term.W) m.c.header.height m.c.header.view m.block m.c.header.hash
